@@ -591,6 +591,45 @@ func c14Construct(r *mon.Run, ai *apiInfo, name string, rep int64) {
 			r.Violate("group-form-differs", c, "%s: when the callback also adds to the enclosing group, g.%s(cb) renders\n%s\nbut g.Add(%s(cb)) renders\n%s", name, name, got, name, exp)
 		}
 	}
+	// a callback that adds nothing (the usual conditional use): the Group form still appends the new statement and
+	// returns it, so tokens chained onto the result are part of the group
+	if n := ft.NumIn(); n > 0 && (ft.In(n-1) == tStmtFunc || ft.In(n-1) == tGroupFunc) && !isDict {
+		build := func(viaAdd bool) (string, string) {
+			var p string
+			blk := jen.BlockFunc(func(outer *jen.Group) {
+				outer.Id("firstQ")
+				a, items := mk()
+				args := a.args(name, ft, false, items)
+				if ft.In(n-1) == tStmtFunc {
+					args[len(args)-1] = reflect.ValueOf(func(*jen.Statement) {})
+				} else {
+					args[len(args)-1] = reflect.ValueOf(func(*jen.Group) {})
+				}
+				pp, what := mon.Guard(func() {
+					var st *jen.Statement
+					if viaAdd {
+						st = fn.Call(args)[0].Interface().(*jen.Statement)
+						outer.Add(st)
+					} else {
+						st = gm.Func.Call(append([]reflect.Value{reflect.ValueOf(outer)}, args...))[0].Interface().(*jen.Statement)
+					}
+					st.Id("chainedQ").Op("=").Lit(1)
+				})
+				if pp {
+					p = what
+				}
+				outer.Id("lastQ")
+			})
+			out, _ := rawFile(blk)
+			return out, p
+		}
+		got, pg := build(false)
+		exp, pe := build(true)
+		if pg == "" && pe == "" && got != exp {
+			r.Violate("group-form-differs", c, "%s: with a callback that adds nothing and tokens chained onto the result, g.%s(cb).Id(..) renders\n%s\nbut g.Add(%s(cb)).Id(..) renders\n%s", name, name, got, name, exp)
+		}
+		r.Count("empty_callback_then_chained_cases", 1)
+	}
 	// GoString, Render and RenderWithFile with a fresh File agree
 	a7, items7 := mk()
 	res7, p7 := call(a7, fn, a7.args(name, ft, false, items7))
